@@ -109,6 +109,8 @@ class SplitCommandLine(Contract):
             return [('splits-by-the-documented-rules', got == want)]
         g = v.g
         res = v.result
+        if 'rarg' not in g:
+            return []       # seen from a caller: some list of arguments (its content is this function's own contract)
         flush = Not(eq(g['rarg'], ''))
         n = g['rlen']
         return [('result-length', eq(res.len, ite(flush, n + 1, n))),
